@@ -411,7 +411,7 @@ def run(ctx):
               for e in list(ctx.fixed.values()) + list(ctx.known.values())
               if e.get("witness", {}).get("ops") and e["witness"]["ops"][0] != "BASE"]
     evaluate(ctx, corpus, judge)
-    evaluate(ctx, list(G.arity_histories()), judge)
+    evaluate(ctx, list(G.arity_histories()) + list(G.extra_histories()), judge)
     ctx.exhaustive = True
     thorough = ctx.tier == "thorough"
     cur = []
